@@ -511,15 +511,17 @@ static size_t safec_ftoa(out_fct_type out, const char *funcname, char *buffer,
         return safec_out_nonfinite(out, buffer, idx, maxlen, value != value,
                                    value < 0, width, flags);
     }
-    // test for very large values
-    // standard printf behavior is to print EVERY whole number digit -- which
-    // could be 100s of characters overflowing your buffers == bad
-    if ((value > PRINTF_MAX_FLOAT) || (value < -PRINTF_MAX_FLOAT)) {
+    // values whose whole part does not fit an int, and more decimals than the
+    // 9 this code can compute: the C library renders them (the destination
+    // is bounded by the output function, however many digits there are)
+    if ((value > PRINTF_MAX_FLOAT) || (value < -PRINTF_MAX_FLOAT) ||
+        ((flags & FLAGS_PRECISION) && prec > 9U &&
+         !(flags & FLAGS_ADAPT_EXP))) {
 #ifdef PRINTF_SUPPORT_EXPONENTIAL
 #ifdef PRINTF_SUPPORT_LONG_DOUBLE
-        // TODO Is %le good?
-        return safec_etoa_long(out, funcname, buffer, idx, maxlen,
-                               (long double)value, prec, width, flags, "%Le");
+        return safec_ftoa_long(out, funcname, buffer, idx, maxlen,
+                               (long double)value, prec, width, flags,
+                               (flags & FLAGS_UPPERCASE) ? "F" : "f");
 #else
         return safec_etoa(out, funcname, buffer, idx, maxlen, value, prec,
                           width, flags);
@@ -861,6 +863,21 @@ static size_t safec_etoa(out_fct_type out, const char *funcname, char *buffer,
         return safec_ftoa(out, funcname, buffer, idx, maxlen, value, prec,
                           width, flags);
     }
+
+#ifdef PRINTF_SUPPORT_LONG_DOUBLE
+    // more than 9 decimals, a denormal, or a %g of a value whose %f style needs
+    // the whole part of a large number: the C library renders them
+    if (((flags & FLAGS_PRECISION) && prec > 9U) ||
+        (value != 0.0 && value < DBL_MIN && value > -DBL_MIN) || // denormal
+        ((flags & FLAGS_ADAPT_EXP) &&
+         ((value >= PRINTF_MAX_FLOAT) || (value <= -PRINTF_MAX_FLOAT)))) {
+        return safec_ftoa_long(out, funcname, buffer, idx, maxlen,
+                               (long double)value, prec, width, flags,
+                               (flags & FLAGS_ADAPT_EXP)
+                                   ? ((flags & FLAGS_UPPERCASE) ? "G" : "g")
+                                   : ((flags & FLAGS_UPPERCASE) ? "E" : "e"));
+    }
+#endif
 
     // determine the sign
     negative = signbit(value) != 0;
